@@ -393,8 +393,18 @@ def main():
     NROWS = clist([[a, [list(t) for t in b], c] for a, b, c in nrows], c_tree)
     niter_cases, nspec_cases = [], []
     nested_stats = {"chains": 0, "after_child_filter": 0}
+    # scripted chains run first: several outer filters, then a selection, then a filter on the inner sequence (and variations)
+    scripted_chains = [
+        [("ofilt", "id", ">", 0), ("ofilt", "z", "<", 100), ("cols", ("z", "in")), ("ifilt", "x", ">", 15)],
+        [("ofilt", "id", ">", 0), ("ofilt", "z", "!=", 8), ("ofilt", "id", "<", 9), ("child", "in"), ("ifilt", "y", "<", 31)],
+        [("ofilt", "id", ">=", 1), ("ofilt", "z", ">", 0), ("cols", ("in", "id")), ("ifilt", "x", ">", 15), ("ifilt", "y", ">", 11),
+         ("slice", slice(0, 2, None))],
+        [("ifilt", "x", ">", 10), ("ofilt", "id", ">", 0), ("ofilt", "z", "<", 9), ("cols", ("z", "in")), ("ifilt", "y", "<", 31),
+         ("child", "in"), ("icols", ("y",))],
+        [("ofilt", "id", "<", "z"), ("ofilt", "z", ">", 7), ("child", "in"), ("ifilt", "x", "<", "y"), ("ichild", "x")],
+    ]
     for _ in range(150 if T == "quick" else 3000):
-        ch = gen_nested_chain()
+        ch = scripted_chains.pop(0) if scripted_chains else gen_nested_chain()
         nested_stats["chains"] += 1
         r.count(("nested-chain", repr(ch)))
         try:
